@@ -462,13 +462,6 @@ class StmtMixin:
                 else:
                     yield s2, o
 
-    def loop_spec_for(self, st, s):
-        q = st.loc.get("$qual")
-        return self.loop_specs.get((q, s.lineno)) or self.loop_specs.get((q, getattr(s, "_ordinal", None)))
-
-    def loop_with_spec(self, st, s, it, spec):
-        raise Unsupported("loop specs not available in this engine configuration")
-
     # ------------------------------------------------------------------ try / with
     def exc_matches(self, st, exc: ExcV, handler_type) -> bool:
         """does exception value ``exc`` match the evaluated handler type value?"""
